@@ -292,6 +292,38 @@ def rule_R10(src, ed, lo, hi, fname):
         i += 1
 
 
+def rule_R17(src, ed, lo, hi, fname):
+    """`continue` in a `for` loop (rejected by this Verus): a top-level statement of the loop body of the
+    form `if COND { continue; }` (no else) followed by the rest R of the body becomes
+    `if COND { } else { R }` -- the same control flow.  Any other `continue` is left alone (the front
+    end will reject it: undecided)."""
+    toks = src.toks
+    for L in find_loops(src, lo, hi):
+        if L["kind"] != "for":
+            continue
+        stmts = split_statements(src, L["open"], L["close"])
+        for (s, e) in stmts:
+            if _skipped(s):
+                continue
+            if toks[s].text != "if":
+                continue
+            # find the block of the if: first `{` at depth 0 after the condition
+            j = s + 1
+            while j < e and not (toks[j].text == "{"):
+                if toks[j].text in "([":
+                    j = src.pairs[j]
+                j += 1
+            if j >= e:
+                continue
+            blk_open, blk_close = j, src.pairs[j]
+            inner = [toks[k].text for k in range(blk_open + 1, blk_close)]
+            if inner != ["continue", ";"] or blk_close + 1 != e:
+                continue
+            ed.replace(toks[blk_open].pos, toks[blk_close].end, "{ } else {", rule="R17 %s: `if .. { continue; }` in a for loop -> if/else around the rest of the body" % fname)
+            ed.insert(toks[L["close"]].pos, "\n}\n", order=-4)
+            SKIP.append((blk_open, blk_close + 1))
+
+
 def rule_R7(src, ed, lo, hi, fname, methods=("sum", "reduce", "count", "all", "max_by", "min_by",
                                              "for_each", "collect", "find")):
     """`let x = CHAIN.m(args);` / `x = CHAIN.m(args)` where m is a provided Iterator method that
@@ -549,7 +581,7 @@ def rule_R3m(src, ed, lo, hi, fname):
 F64_FIELDS = []   # set per function from the unit (`f64_fields`): struct fields of type f64
 
 
-RULES = {"R3m": rule_R3m, "R13": rule_R13, "R12": rule_R12, "R2": rule_R2, "R9": rule_R9, "R1": rule_R1, "R3": rule_R3, "R7": rule_R7, "R8": rule_R8, "R10": rule_R10}
+RULES = {"R17": rule_R17, "R3m": rule_R3m, "R13": rule_R13, "R12": rule_R12, "R2": rule_R2, "R9": rule_R9, "R1": rule_R1, "R3": rule_R3, "R7": rule_R7, "R8": rule_R8, "R10": rule_R10}
 SKIP = []  # token ranges (s, e) in which rules must not fire (abstracted statements)
 
 
@@ -682,7 +714,7 @@ def extract_fn(src, loc, spec, ed):
                 SKIP.append((ts[0], ts[-1] + 1))
     # body rules (not inside abstracted statements: overlapping edits are rejected by Edits.apply)
     F64_FIELDS[:] = spec.get("f64_fields", [])
-    for r in spec.get("rules", ["R3", "R1", "R9", "R12", "R13", "R10"]):
+    for r in spec.get("rules", ["R17", "R3", "R1", "R9", "R12", "R13", "R10"]):
         RULES[r](src, ed, brace + 1, close, name)
     del SKIP[:]
     # entry text
@@ -832,7 +864,7 @@ def _extract_expr_closure(src, spec, ed, first, limit):
             ts = [i for i in range(first, last + 1) if a <= toks[i].pos < b]
             if ts:
                 SKIP.append((ts[0], ts[-1] + 1))
-    for r in spec.get("rules", ["R3", "R1", "R9", "R12", "R13", "R10"]):
+    for r in spec.get("rules", ["R17", "R3", "R1", "R9", "R12", "R13", "R10"]):
         RULES[r](src, ed, first, last + 1, name)
     del SKIP[:]
     ed.log.append("BLOCK %s: expression body of closure #%d (header %s) of `%s` emitted as fn %s(%s); the iterator chain it is passed to is not part of this unit" % (
@@ -923,6 +955,11 @@ def extract_block_as_fn(src, loc, spec, ed):
     for i in range(b_open + 1, b_close):
         t = toks[i]
         if t.kind == "ident" and t.text in ("break", "continue") and not any(o < i < c for o, c in inner):
+            if t.text == "continue" and "loop" in spec and spec.get("continue_as") and toks[i + 1].text == ";":
+                # the block IS the body of the loop this `continue` belongs to: skipping the rest of the
+                # iteration is leaving the stand-alone fn with its normal exit value
+                ed.replace(t.pos, t.end, spec["continue_as"], rule="BLOCK %s: `continue` of the extracted loop -> `%s`" % (name, spec["continue_as"]))
+                continue
             if not spec.get("allow_break"):
                 raise Undecided("block of %s contains `%s`" % (name, t.text))
         if t.kind == "ident" and t.text == "return" and not spec.get("allow_return"):
@@ -942,7 +979,7 @@ def extract_block_as_fn(src, loc, spec, ed):
                 raise Undecided("lost anchor: inner loop #%d of %s" % (k, name))
             apply_slice(src, ed, depth_loops[k]["open"], depth_loops[k]["close"], tbl, "%s loop #%d" % (name, k), spec.get("forbidden", ()))
     F64_FIELDS[:] = spec.get("f64_fields", [])
-    for r in spec.get("rules", ["R3", "R1", "R9", "R12", "R13", "R10"]):
+    for r in spec.get("rules", ["R17", "R3", "R1", "R9", "R12", "R13", "R10"]):
         RULES[r](src, ed, b_open + 1, b_close, name)
     del SKIP[:]
     if spec.get("rename_self"):
